@@ -220,6 +220,17 @@ pub fn run(ctx: &Ctx, st: &mut Stats) {
     if stride == 1 {
         st.mark_exhaustive("dates x critical-times x sub-second {0,1,499999,500000,999999}", "all dates x critical times x 5 sub-second parts for new/from(Timestamp)/try_from_usecs");
     }
+    let bts = bit_times();
+    let dpool = date_pool();
+    let (bts_ref, dpool_ref) = (&bts, &dpool);
+    let bstep = ctx.tier.pick(997, 3, 1);
+    ctx.par(st, "pool dates x bit-structured times: new / from(Timestamp)", true, 0, (dpool.len() * bts.len()) as i64 / bstep, |st, i, _| {
+        let i = i * bstep;
+        let n = dpool_ref[(i as usize) / bts_ref.len()] as i64;
+        let t = bts_ref[(i as usize) % bts_ref.len()];
+        st.eval(&C::ab(K::New, n, t), check);
+        st.eval(&C::ab(K::FromTs, n * DAY_US + t, 0), check);
+    });
     st.stratum("try_from_usecs/boundaries", true);
     for u in [TS_MIN - SEC, TS_MIN - 1, TS_MIN, TS_MIN + 1, TS_MIN + SEC, ORA_MAX - SEC, ORA_MAX - 1, ORA_MAX, ORA_MAX + 1, ORA_MAX + 999_999, ORA_MAX + SEC, TS_MAX, TS_MAX + 1, 0, 1, -1, -SEC, SEC, i64::MIN, i64::MAX, 1 << 53, -(1 << 53)] {
         st.eval(&C::ab(K::TryUsecs, u, 0), check);
